@@ -1,6 +1,7 @@
 package main
 
 import (
+	"bytes"
 	"context"
 	"encoding/json"
 	"errors"
@@ -168,4 +169,27 @@ func runBatch(in, out string, j int, limit time.Duration, f func(map[string]any,
 		}
 	})
 	return fh.Close()
+}
+
+// capBuffer keeps at most max bytes of what is written to it and counts everything: the stdout / stderr of a child
+// process that prints without end must not exhaust the memory of the harness.
+type capBuffer struct {
+	buf        bytes.Buffer // not embedded: io.Copy must go through Write, not through Buffer.ReadFrom
+	max, total int
+}
+
+func (b *capBuffer) String() string { return b.buf.String() }
+func (b *capBuffer) Bytes() []byte  { return b.buf.Bytes() }
+func (b *capBuffer) Len() int       { return b.buf.Len() }
+
+func (b *capBuffer) Write(p []byte) (int, error) {
+	b.total += len(p)
+	if room := b.max - b.buf.Len(); room > 0 {
+		if len(p) > room {
+			b.buf.Write(p[:room])
+		} else {
+			b.buf.Write(p)
+		}
+	}
+	return len(p), nil
 }
